@@ -46,16 +46,25 @@ MANIFEST = {
             "apply_timestep / _start_up_actions / _shut_down_actions are translated statement by statement (helper methods of Node inlined, "
             "all()/any() over the interfaces with their short-circuit semantics) and proved, for every node, to compute exactly the model's "
             "powerOn / powerOff / reset / tickDown∘tickUp / actions (node afterwards incl. every operating_state assignment, and the answer); "
-            "a rewrite that keeps the meaning re-proves, one that does not breaks the theorem and a counter-model search prints a node. "
+            "a rewrite that keeps the meaning re-proves, one that does not breaks the theorem and a counter-model search prints the "
+            "differing node closest to a fresh one, which is replayed on the real code at once (shortest request sequence); "
+            "(16) the interfaces' own enable()/disable() (Wired-, IPWired-, Wireless-, IPWirelessNetworkInterface) are translated too "
+            "(local variables, super(), a dereference of a missing node/link raises) and proved for EVERY interface, node or no node, "
+            "every node state, link or no link: enable is the model's Nic.enable (refuses unless the node is ON / a link is attached), "
+            "never raises, answers as the model says; disable always clears and answers True; "
+            "(17) every route registered at RUN TIME (application installed by request, software installed by the software manager, "
+            "interface connected later) goes into a manager that hangs under a node-level edge with the node-is-on validator "
+            "(regenerated list of registration sites; a registration on the node's own manager is refused by the extractor), hence a "
+            "node that is not ON refuses whatever is sent below it, for every node class. "
             "Tie: Gen/PowerProg.lean (the translated bodies) + Gen/Power.lean (enum, defaults, "
-            "guarded statement lists of apply_timestep and pre_timestep, interface guards and "
-            "every enable/disable definition, validators, route tables per class, inventories of every class below Node and "
+            "guarded statement lists of apply_timestep and pre_timestep, the inventory of "
+            "every enable/disable definition, run-time route registration sites, validators, route tables per class, inventories of every class below Node and "
             "NetworkInterface, the power-relevant statements of constructors/loader/set-up, every power_on/power_off call site, "
             "software guards) + Gen/RequestSchema.lean (C05x's schematic request tree) + differential rig R-node: bounded-exhaustive "
             "and random request/tick/ping sequences on two hosts, on a six-class network, and with a node of EVERY instantiable class "
             "under test between peers; direct API calls, run-time duration changes, negative and huge durations; whole power cycles "
             "from assorted software states; whole power cycles for EVERY placement of the links on the ports of a switch / router / "
-            "firewall (and plugged / unplugged hosts and wireless routers), also after an interface was disabled by request; scenario dictionaries with every declared state through PrimaiteGame.from_config and "
+            "firewall (and plugged / unplugged hosts and wireless routers), also after an interface was disabled by request; an application of every registered class installed at run time (by request / by the software manager) on a computer and a server, the node then OFF / SHUTTING_DOWN / BOOTING and every leaf of its live request tree sent; scenario dictionaries with every declared state through PrimaiteGame.from_config and "
             "setup_for_episode; user-session time-outs across power changes. Compared after every operation: the response, every "
             "operating_state assignment, the whole modelled state, and per tick which sub-component pre_timestep/apply_timestep calls "
             "the node made; implementation-side oracles for frames passing an interface of a non-ON node, enabled interfaces / "
@@ -116,6 +125,9 @@ def _oracle_sig(o: str) -> dict:
 
 def _eval_case(case: dict) -> Tuple[List[dict], List[str], List[str], List[str]]:
     """Run one case on both sides. Returns (failures [{sig, what}], lines, impl, model)."""
+    if case.get("kind") == "rtinstall":   # implementation-side family: the oracle is theorem C12_runtime_routes_refused
+        fs, _ = rig.run_rtinstall(case)
+        return [{"sig": _oracle_sig(o), "what": "oracle: " + o} for o in fs], [], [], []
     lines, impl, oracle, _ = rig.run_case(case)
     model = run_driver(EXE, lines)
     fails = []
@@ -136,6 +148,33 @@ def replay(rec: dict) -> bool:
     fails, *_ = _eval_case(rec["replay"]["case"])
     return not fails
 
+
+
+# ------------------------------------------------------------------------------------------------ counter-model -> replay
+_CM_METHOD = {"reset": "reset", "power_off": "shutdown", "power_on": "startup", "apply_timestep": None}
+
+
+def _case_from_counter_model(line: str) -> Optional[dict]:
+    """A counter-model of a translated power method (a line of drv_c12prog) turned into the SHORTEST request sequence that puts a
+    real node into that state and calls the method: only for nodes a fresh episode reaches at once (ON with nothing pending; OFF
+    after a shutdown), durations >= 0. None when the node is not of that kind (the rig families then have to find the input)."""
+    w = line.split(" | ")[0].split()
+    meth = w[0]
+    f = dict(t.split("=", 1) for t in w[2:] if "=" in t)
+    try:
+        up, down = int(f["up_dur"]), int(f["down_dur"])
+    except (KeyError, ValueError):
+        return None
+    if meth not in _CM_METHOD or up < 0 or down < 0 or f.get("rs") != "false" or f.get("up_cd") != "0" or f.get("down_cd") != "0":
+        return None
+    call = [{"op": "req", "node": 0, "key": _CM_METHOD[meth]}] if _CM_METHOD[meth] else [{"op": "tick"}]
+    if f.get("st") == "ON":
+        pre = []
+    elif f.get("st") == "OFF":
+        pre = [{"op": "req", "node": 0, "key": "shutdown"}] + [{"op": "tick"}] * (down + 1 if down > 0 else 0)
+    else:
+        return None
+    return rig.pair_case(up, down, 1, 1, pre + call + [{"op": "tick"}] * (up + down + 2))
 
 # ------------------------------------------------------------------------------------------------ workers
 def _work(case: dict):
@@ -160,6 +199,8 @@ def _run_impl_all(cases: List[dict], workers: int):
 def run(ctx: Ctx):
     import time
     t0 = time.time()
+    cm_cases: List[Tuple[str, Optional[dict]]] = []
+    iface_table: Dict[str, str] = {}
     with lean_lock():
         ctx.extract("Power", x_power.emit)
         ctx.extract("PowerProg", x_prog.emit)
@@ -173,12 +214,14 @@ def run(ctx: Ctx):
             okb, outb = lake_build(["drv_c12prog"])
             if okb:
                 res = subprocess.run([str(LEAN / ".lake" / "build" / "bin" / "drv_c12prog")], stdout=subprocess.PIPE, text=True, timeout=600)
+                iface_table.update(dict(l.split(" -> ", 1) for l in res.stdout.splitlines() if l.startswith("table ") and " -> " in l))
                 found = [l for l in res.stdout.splitlines() if " counter-model " in l]
                 tried = [l for l in res.stdout.splitlines() if " ok " in l]
                 ctx.oblige("model:translated power methods agree with the model on every small node (counter-model search)",
-                           "correspondence", not found and len(tried) == 6, " || ".join(found)[:3000] or res.stdout[:500])
+                           "correspondence", not found and len(tried) == 12, " || ".join(found)[:3000] or res.stdout[:500])
                 for l in found:
                     ctx.notes.append("counter-model of a translated power method: " + l[:1200])
+                    cm_cases.append((l.split()[0], _case_from_counter_model(l)))
                 if tried:
                     ctx.notes.append("counter-model search: " + "; ".join(tried))
             else:
@@ -187,6 +230,54 @@ def run(ctx: Ctx):
         except Exception as e:
             ctx.oblige("model:translated power methods agree with the model on every small node (counter-model search)",
                        "correspondence", False, f"{type(e).__name__}: {e}")
+    # the translation of the interfaces' enable()/disable() validated on REAL interface objects in every context (no node / node in
+    # each state, link or none, up or down, every interface class a node carries, the base classes' methods called unbound)
+    try:
+        import logging
+        logging.disable(logging.CRITICAL)
+        try:
+            real = rig.iface_probe()
+        finally:
+            logging.disable(logging.NOTSET)
+        bad = {k: {"real": v, "translated": iface_table.get(k)} for k, v in real.items() if iface_table.get(k) != v}
+        ctx.count("iface-probe:contexts", len(real))
+        ctx.count("iface-probe:raised", sum(1 for v in real.values() if "RAISES" in v))
+        ctx.oblige("rig:the translated interface enable()/disable() agree with the real interface objects in every context (probe)",
+                   "correspondence", bool(real) and bool(iface_table) and not bad, json.dumps(bad)[:2000])
+    except Exception as e:
+        ctx.oblige("rig:the translated interface enable()/disable() agree with the real interface objects in every context (probe)",
+                   "correspondence", False, f"{type(e).__name__}: {e}")
+    # a counter-model of a broken `C12_gen_*_sem` theorem is replayed on the REAL code at once: the shortest request sequence that
+    # reaches the node and calls the method, compared with the proved model like any other case, then shrunk
+    for meth, cm in cm_cases:
+        if cm is None:
+            ctx.notes.append(f"counter-model of {meth}: not a node a fresh episode reaches at once; left to the rig families")
+            continue
+        try:
+            fails_cm, *_ = _eval_case(cm)
+        except Exception as e:
+            ctx.notes.append(f"counter-model of {meth}: replay failed to run ({type(e).__name__}: {e})")
+            continue
+        if not fails_cm:
+            ctx.notes.append(f"counter-model of {meth}: the real code agrees with the model on the derived request sequence "
+                             "(the difference is not observable through requests from this node)")
+            continue
+        hit = fails_cm[0]
+        key = json.dumps(hit["sig"], sort_keys=True)
+
+        def still_cm(ops, cm=cm, key=key):
+            fs, *_ = _eval_case(dict(cm, ops=ops))
+            return any(json.dumps(f["sig"], sort_keys=True) == key for f in fs)
+        small = dict(cm, ops=shrink_ops(cm["ops"], still_cm, budget=40))
+        fs, lines2, impl2, model2 = _eval_case(small)
+        hit2 = next((f for f in fs if json.dumps(f["sig"], sort_keys=True) == key), None)
+        if hit2 is None:
+            small, hit2 = cm, hit
+            fs, lines2, impl2, model2 = _eval_case(cm)
+        ctx.violation(hit2["sig"], hit2["what"], {"case": small, "lines": lines2, "impl": impl2, "model": model2,
+                                                  "from": f"counter-model of the translated {meth} (C12_gen_{meth}_sem)"})
+        ctx.notes.append(f"counter-model of {meth} replayed on the real code: {len(small['ops'])} operation(s): "
+                         + json.dumps(small["ops"])[:300] + " -> " + hit2["what"][:300])
     ctx.cov["rule"] = ("case = (node classes, start-up/shut-down durations, op sequence over shutdown/startup/reset requests, ticks, "
                        "pings, other node-level requests, frame injections); every answer, every operating_state assignment and "
                        "the whole modelled state after every op are compared; a case is non-trivial when some node leaves ON or "
@@ -270,6 +361,41 @@ def run(ctx: Ctx):
         cases.append((f"sess:{k}", rig.gen_sessions(rng)))
 
     only = [x for x in os.environ.get("C12_FAMILIES", "").split(",") if x]
+    # --- round 7c: routes registered at RUN TIME. An application is installed during the episode (by request / by the software
+    #     manager), the node leaves ON, every leaf of its LIVE request tree is sent: all must answer `failure` and change nothing
+    #     (theorem C12_runtime_routes_refused + C12_refused_unless_startup_all_classes, read on the implementation)
+    rt_fail, rt_seen = 0, set()
+    for c in (rig.runtime_install_cases() if (not only or "rtinstall" in only) else []):
+        try:
+            fs, h = rig.run_rtinstall(c)
+        except Exception as e:
+            raise RuntimeError(f"rig failed on rtinstall {c}: {type(e).__name__}: {e}")
+        ctx.case(c, True)
+        ctx.count("family:rtinstall")
+        ctx.cov["traces_validated_against_impl"] += 1
+        for k, v in h.items():
+            ctx.count("rtinstall:" + k, v)
+        if fs:
+            rt_fail += 1
+        for o in fs:
+            key = json.dumps(_oracle_sig(o), sort_keys=True)
+            if key in rt_seen:
+                continue
+            rt_seen.add(key)
+            small = c
+            if " -> " in o.split("|", 2)[2]:
+                cand = dict(c, only=o.split("|", 2)[2].split(" -> ")[0].split("/"))
+                if any(json.dumps(f["sig"], sort_keys=True) == key for f in _eval_case(cand)[0]):
+                    small = cand
+            ctx.violation(_oracle_sig(o), "oracle: " + o, {"case": small, "lines": [], "impl": [], "model": [], "from": "rtinstall"})
+    if not only or "rtinstall" in only:
+        blind = not (ctx.hist.get("rtinstall:installed-at-run-time", 0) and ctx.hist.get("rtinstall:answer:runtime:failure", 0)
+                     and ctx.hist.get("rtinstall:answer:other:failure", 0))
+        ctx.oblige("rig:every leaf of the live request tree (routes registered at run time included) is refused while the node is not ON",
+                   "correspondence", rt_fail == 0 and not blind,
+                   f"{rt_fail} case(s) failed; installed at run time: {ctx.hist.get('rtinstall:installed-at-run-time', 0)}, "
+                   f"requests sent: {ctx.hist.get('rtinstall:leaves-sent', 0)}, of which to run-time routes and refused: "
+                   f"{ctx.hist.get('rtinstall:answer:runtime:failure', 0)}")
     if only:   # development aid (mutation self-checks): run the named families only; recorded in the evidence
         cases = [(nm, c) for nm, c in cases if nm.split(":")[0] in only]
         ctx.notes.append(f"C12_FAMILIES={','.join(only)}: only these case families were run (development setting, not the check as shipped)")
